@@ -238,7 +238,66 @@ def check(ctx):
     ctx.ob("C19.R2", edf, "warm-up count = total - posterior (total = overall count, "
                           "posterior = posterior count)", ok, stmt="warmup = total - posterior")
 
+    # chains are numbered within (kernel, code, message, phase): all four index levels
+    rdf = evaluate(repo, edf)
+    gbs = [t for t, _, _ in rdf.calls if t[0] == "call" and t[1][0] == "a"
+           and t[1][2] == "groupby"]
+    FULL_NAMES = {"kernel", "error_code", "error_msg", "phase"}
+
+    def levels_ok(t):
+        lv = kw(t, "level", 1) or kw(t, "by", 0)
+        if lv is None or lv[0] != "list":
+            return False
+        vals = [x[1] for x in lv[1] if x[0] == "c"]
+        return vals == [0, 1, 2, 3] or set(vals) == FULL_NAMES
+    cum = [t for t, _, _ in rdf.calls if t[0] == "call" and t[1][0] == "a"
+           and t[1][2] == "cumcount"]
+    ok = (len(gbs) == 2 and all(levels_ok(t) for t in gbs) and len(cum) == 1
+          and cum[0][1][1] in gbs)
+    ctx.ob("C19.R2", edf, "chains are numbered, and counts aggregated, within (kernel, error "
+                          "code, message, phase): every groupby uses all four index levels "
+                          "(dropping `kernel` would mix the chains of different kernels)",
+           ok, detail=str([short(kw(t, "level", 1) or kw(t, "by", 0) or ()) for t in gbs]),
+           stmt="groupby levels " + str([pretty(kw(t, "level", 1) or kw(t, "by", 0) or ())
+                                          for t in gbs]))
+
     # ------------------------------------------------------------------ R3
+    # result containers are pickled by the default object protocol (exact copy of the
+    # instance dict); a custom hook must restore by plain assignment, never through
+    # methods with side effects (append re-applies thinning)
+    HOOKS = ("__getstate__", "__setstate__", "__reduce__", "__reduce_ex__", "__getnewargs__",
+             "__getnewargs_ex__", "__deepcopy__", "__copy__")
+    containers = [q for q in repo.classes if q.startswith(("liesel.goose.chain.",
+                                                           "liesel.option."))
+                  or q in ("liesel.goose.engine.SamplingResults",
+                           "liesel.goose.engine.KernelErrorLog",
+                           "liesel.goose.epoch.EpochConfig")]
+    ctx.require_min("result container classes", len(containers), 6)
+    for q in sorted(containers):
+        ci = repo.cls(q)
+        hooks = [h for h in HOOKS if ci.own_method(h) is not None]
+        if not hooks:
+            ctx.ob("C19.R3", ci, "no custom pickling / copying hook: the default protocol "
+                                 "restores the instance dict exactly", True, nontrivial=False)
+            continue
+        bad = []
+        ss_ = ci.own_method("__setstate__")
+        if ss_ is not None:
+            rss = evaluate(repo, ss_)
+            for t, _, _ in rss.calls:
+                f = t[1]
+                if f[0] == "a" and f[1] == SELF and f[2] not in ("__dict__",):
+                    bad.append(f"self.{f[2]}(...)")
+        for h in hooks:
+            if h != "__setstate__" and h != "__getstate__":
+                bad.append(h)
+        ctx.ob("C19.R3", ci, "a custom pickling hook restores the stored chunks by plain "
+                             "assignment (no method with side effects such as append(), "
+                             "which would thin an already thinned chain again)", not bad,
+               detail=f"hooks {hooks}; suspicious: {bad}", stmt=f"pickle hooks {hooks} {bad}")
+    ctl = repo.cls("liesel.model.nodes.Node")
+    ctx.require_min("positive control of the pickling-hook matcher (Node.__getstate__)",
+                    sum(1 for h in HOOKS if ctl.own_method(h) is not None), 2)
     sv = method(repo, sr, "pkl_save", own=True)
     ld = method(repo, sr, "pkl_load", own=True)
     rsv, rld = evaluate(repo, sv), evaluate(repo, ld)
